@@ -204,6 +204,25 @@ func cmdCheck(args []string) int {
 			unclaimedEarly = append(unclaimedEarly, re)
 		}
 	}
+	// obligations of kinds that belong to other properties' claims are not decided here
+	otherKinds := 0
+	if len(plan.Kinds) > 0 {
+		var kept []*vc.Obligation
+		for _, ob := range all {
+			ok := ob.Kind == "cover"
+			for _, k := range plan.Kinds {
+				if k == ob.Kind {
+					ok = true
+				}
+			}
+			if ok {
+				kept = append(kept, ob)
+			} else {
+				otherKinds++
+			}
+		}
+		all = kept
+	}
 	var claimedObs, otherObs []*vc.Obligation
 	for _, ob := range all {
 		isU := false
@@ -441,6 +460,7 @@ func cmdCheck(args []string) int {
 			"generated_not_claimed": undecided,
 			"known_findings":  knownLines,
 			"vacuity_guards_not_refuted_but_no_model_found": coverNotRefuted,
+			"obligation_queries_of_other_kinds_not_decided_here": otherKinds,
 			"decided_clauses": plan.Decided,
 			"not_decided":     plan.NotDecided,
 			"assumption_scan": scanAssumptions(c),
